@@ -110,23 +110,44 @@ func rulesTrieWalk(c *Ctx, r *Report) {
 	if f == nil {
 		return // reported by DEL-NF
 	}
-	var dels []*ssa.Call
+	var dels []ssa.Instruction // where the deletion phase starts: delete() calls, or — when the walk is a stage of
+	// its own — the returns of that stage that report "found"
 	var lookups []*ssa.Lookup
-	instrs(f, func(in ssa.Instruction) {
-		switch x := in.(type) {
-		case *ssa.Call:
-			if b, ok := x.Call.Value.(*ssa.Builtin); ok && b.Name() == "delete" {
-				dels = append(dels, x)
-			}
-		case *ssa.Lookup:
-			if _, isMap := x.X.Type().Underlying().(*types.Map); isMap {
-				if _, isPtr := x.Type().Underlying().(*types.Pointer); isPtr {
-					lookups = append(lookups, x)
+	for _, sf := range c.stageFuncs(f) {
+		var dl []ssa.Instruction
+		var lks []*ssa.Lookup
+		instrs(sf, func(in ssa.Instruction) {
+			switch x := in.(type) {
+			case *ssa.Call:
+				if b, ok := x.Call.Value.(*ssa.Builtin); ok && b.Name() == "delete" {
+					dl = append(dl, x)
+				}
+			case *ssa.Lookup:
+				if _, isMap := x.X.Type().Underlying().(*types.Map); isMap {
+					if _, isPtr := x.Type().Underlying().(*types.Pointer); isPtr {
+						lks = append(lks, x)
+					}
 				}
 			}
+		})
+		if len(lks) > 0 && len(dl) == 0 && sf != f {
+			// a walk stage: its "found" returns lead on to the deletion
+			instrs(sf, func(in ssa.Instruction) {
+				if rt, ok := in.(*ssa.Return); ok {
+					for _, op := range retOperands(rt) {
+						if k := constVal(op); k != nil && k.String() == "true" {
+							dl = append(dl, rt)
+						}
+					}
+				}
+			})
+			r.analysed(fname(sf))
 		}
-	})
+		dels = append(dels, dl...)
+		lookups = append(lookups, lks...)
+	}
 	for _, lk := range lookups {
+		f := lk.Parent()
 		// the values that carry the lookup's result: itself and phis merging it
 		carries := map[ssa.Value]bool{lk: true}
 		for changed := true; changed; {
@@ -160,8 +181,11 @@ func rulesTrieWalk(c *Ctx, r *Report) {
 		walk = func(b *ssa.BasicBlock, from int) {
 			for _, in := range b.Instrs[from:] {
 				for _, d := range dels {
-					if in == ssa.Instruction(d) {
+					if in == d {
 						untested = c.pos(d.Pos())
+						if untested == "" {
+							untested = "the stage's `found` return"
+						}
 					}
 				}
 			}
@@ -366,7 +390,7 @@ func rulesTrieDelete(c *Ctx, r *Report, e *effEngine) {
 	// DEL-ONLY: Delete changes the trie by removing map entries and in no other way
 	var other []string
 	for _, ev := range evs {
-		if ev.kind != "delete" {
+		if ev.kind != "delete" && !strings.HasPrefix(ev.kind, "delete via ") {
 			other = append(other, fmt.Sprintf("%s at %s", ev.kind, c.pos(ev.ins.Pos())))
 		}
 	}
@@ -374,13 +398,20 @@ func rulesTrieDelete(c *Ctx, r *Report, e *effEngine) {
 		"Delete also changes the trie other than by delete() on a map ("+strings.Join(other, "; ")+"): a node that stays reachable, e.g. the root of an emptied trie, can be left in a state later calls do not expect")
 	// DEL-PRUNE: after delete(node.m, key), the loop continues only when len(node.m) == 0
 	var del *ssa.Call
-	instrs(f, func(in ssa.Instruction) {
-		if cl, ok := in.(*ssa.Call); ok {
-			if b, ok := cl.Call.Value.(*ssa.Builtin); ok && b.Name() == "delete" {
-				del = cl
+	for _, sf := range c.stageFuncs(f) {
+		instrs(sf, func(in ssa.Instruction) {
+			if cl, ok := in.(*ssa.Call); ok {
+				if b, ok := cl.Call.Value.(*ssa.Builtin); ok && b.Name() == "delete" {
+					del = cl
+				}
 			}
-		}
-	})
+		})
+	}
+	if del != nil && del.Parent() != f {
+		// the pruning loop lives in a stage of Delete: analyse it there
+		f = del.Parent()
+		r.analysed(fname(f))
+	}
 	if del == nil {
 		r.undecided("DEL-PRUNE", where, "delete", c.pos(f.Pos()), "no delete() found")
 		return
@@ -483,7 +514,13 @@ func rulesTrieDelete(c *Ctx, r *Report, e *effEngine) {
 		fmt.Sprintf("over the loop automaton (%d points: loop-carried flags x children left x opaque conditions), the walk goes on to delete the parent's edge exactly when the node has no children left", len(m.points)),
 		fmt.Sprintf("the upward walk can go on when the node still has %v children: members that do not have the deleted prefix are removed too (want: continue only with 0)", cont.sorted()))
 	// the deleted key is b[i] in stack[i].m
-	keyOK := strings.HasPrefix(sy.expr(del.Call.Args[1]).String(), "load(P1[")
+	keyStr := sy.expr(del.Call.Args[1]).String()
+	keyOK := false
+	for i, p := range f.Params {
+		if sl, ok := p.Type().Underlying().(*types.Slice); ok && types.Identical(sl.Elem(), types.Typ[types.Byte]) && strings.HasPrefix(keyStr, fmt.Sprintf("load(P%d[", i)) {
+			keyOK = true
+		}
+	}
 	r.check(keyOK, "DEL-PRUNE", where, "deleted edge", c.pos(del.Pos()), "the removed edge is labelled with a byte of the argument", "the removed edge is not labelled with b[i]")
 }
 
